@@ -5,7 +5,11 @@ from .. import fam_validate as fv
 from .. import gen_models as gm
 
 THEOREMS = ["C18.mse_nonneg", "C18.mse_refl", "C18.mse_symm", "C18.mdr_nonneg", "C18.mdr_refl", "C18.self_compare_zero",
-            "C18.one_entry_per_tensor", "C18.inputs_filed"]
+            "C18.one_entry_per_tensor", "C18.inputs_filed",
+            # C18b: the WHOLE compare_model: which names, which group, which value; self comparison; when it fails
+            "C18.compare_spec", "C18.compare_spec_general", "C18.perSample_length", "C18.compare_nodup", "C18.self_compare",
+            "C18.self_compare_ok_iff", "C18.compare_nonneg", "C18.compare_mse_symmetric", "C18.compare_mse_symmetric_mem",
+            "C18.compare_ok_iff", "C18.pairVal_error_iff", "C18.compare_error_iff"]
 
 
 def public_entry_point(ctx, q, data, metric, want, fail):
@@ -38,10 +42,15 @@ def run(ctx):
                 "comparison; compare_model's groups are compared with the Lean model fed with tensor contents read by the harness's own "
                 "interpreter instances (membership exactly, values within the float32 summation bound) and checked by an independent "
                 "oracle; distinct = distinct (model, recipe, metric)")
-    ctx.explanation = ("metric laws and the one-entry-per-tensor partition are proved on the model for all inputs; the metric values are "
+    ctx.explanation = ("C18b, for the whole compare_model on the model: a name is reported iff in some sample it names a tensor on both sides; it is "
+                       "filed in exactly one group (inputs, else outputs, else constants, else intermediates) with the mean, in sample order, of "
+                       "the metric of the two (dequantized, flattened) contents over the samples in which it occurs on both sides "
+                       "(compare_spec, compare_nodup, perSample_length); comparing a model with itself files 0 for every tensor "
+                       "(self_compare); all values are >= 0; MSE groups are invariant under swapping the sides (compare_mse_symmetric); "
+                       "success and every failure are characterised (compare_ok_iff, compare_error_iff). Also: metric laws and the one-entry-per-tensor partition are proved on the model for all inputs; the metric values are "
                        "modelled in ideal arithmetic (numpy evaluates in float32 with pairwise summation), so values are compared within "
                        "an explicit bound, not bit-exactly. The interpreter is external.")
-    common.proof_side(ctx, THEOREMS)
+    common.proof_side(ctx, THEOREMS, modules=["QProps.C18", "QProps.C18b"])
     drv = common.Driver()
     rng = ctx.rng
     n = 120 if ctx.tier == "quick" else 900
